@@ -129,6 +129,7 @@ package jsonpath
 //@ smt (declare-fun vkind (Val) Int)
 //@ smt (declare-fun vrank (Val) Int)
 //@ smt (declare-fun paramSingleQ (Val) Bool)
+//@ smt (declare-fun QH (Val Val Val) Bool)
 
 //@ spec rtOK(r *errorBasicRuntime) bool = r != nil && wf(r) && r.node != nil
 //@ spec errRT(b *syntaxBasicNode) bool = rtOK(b.errorRuntime)
@@ -442,9 +443,13 @@ package jsonpath
 //@ spec typedList(k int, s []interface{}) bool = forall i {elemAt(s, i)} :: off(s) <= i && i < off(s) + len(s) ==> okSlot(k, elemAt(s, i))
 //@ spec allEmpty(s []interface{}) bool = forall i {elemAt(s, i)} :: off(s) <= i && i < off(s) + len(s) ==> elemAt(s, i) == emptyEntity
 
-//@ spec WFandDef(n *syntaxLogicalAnd) bool = n != nil && !paramSingleQ(n) && n.leftQuery != nil && n.rightQuery != nil && WFquery(n.leftQuery) && WFquery(n.rightQuery) && 0 <= qheight(n.leftQuery) && qheight(n.leftQuery) < qheight(n) && 0 <= qheight(n.rightQuery) && qheight(n.rightQuery) < qheight(n)
-//@ spec WForDef(n *syntaxLogicalOr) bool = n != nil && !paramSingleQ(n) && n.leftQuery != nil && n.rightQuery != nil && WFquery(n.leftQuery) && WFquery(n.rightQuery) && 0 <= qheight(n.leftQuery) && qheight(n.leftQuery) < qheight(n) && 0 <= qheight(n.rightQuery) && qheight(n.rightQuery) < qheight(n)
-//@ spec WFnotDef(n *syntaxLogicalNot) bool = n != nil && !paramSingleQ(n) && n.query != nil && WFquery(n.query) && 0 <= qheight(n.query) && qheight(n.query) < qheight(n)
+// QH(q, root, member): the specification truth value of filter query q for one member (C09/C10).
+// holdsAt(list, j): how a computed list answers for member j (length-1 lists are whole-match verdicts).
+//@ spec holdsAt(s []interface{}, j int) bool = (len(s) == 1 ? elemAt(s, 0) : elemAt(s, j)) != emptyEntity
+//@ spec memberAt(cl []interface{}, j int) any = old(elemAt(cl, off(cl) + j))
+//@ spec WFandDef(n *syntaxLogicalAnd) bool = n != nil && !paramSingleQ(n) && n.leftQuery != nil && n.rightQuery != nil && WFquery(n.leftQuery) && WFquery(n.rightQuery) && 0 <= qheight(n.leftQuery) && qheight(n.leftQuery) < qheight(n) && 0 <= qheight(n.rightQuery) && qheight(n.rightQuery) < qheight(n) && (forall r Val, c Val {QH(n, r, c)} :: QH(n, r, c) <==> (QH(n.leftQuery, r, c) && QH(n.rightQuery, r, c)))
+//@ spec WForDef(n *syntaxLogicalOr) bool = n != nil && !paramSingleQ(n) && n.leftQuery != nil && n.rightQuery != nil && WFquery(n.leftQuery) && WFquery(n.rightQuery) && 0 <= qheight(n.leftQuery) && qheight(n.leftQuery) < qheight(n) && 0 <= qheight(n.rightQuery) && qheight(n.rightQuery) < qheight(n) && (forall r Val, c Val {QH(n, r, c)} :: QH(n, r, c) <==> (QH(n.leftQuery, r, c) || QH(n.rightQuery, r, c)))
+//@ spec WFnotDef(n *syntaxLogicalNot) bool = n != nil && !paramSingleQ(n) && n.query != nil && WFquery(n.query) && 0 <= qheight(n.query) && qheight(n.query) < qheight(n) && (forall r Val, c Val {QH(n, r, c)} :: QH(n, r, c) <==> !QH(n.query, r, c))
 //@ spec WFcparam(p *syntaxBasicCompareParameter, q any) bool = p != nil && p.param != nil && WFquery(p.param) && 0 <= qheight(p.param) && qheight(p.param) < qheight(q) && paramSingleQ(p.param) && (p.isLiteral ==> isType(p.param, *syntaxQueryParamLiteral) || isType(p.param, *syntaxQueryParamRoot))
 //@ spec WFcmpqDef(n *syntaxBasicCompareQuery) bool = n != nil && !paramSingleQ(n) && n.comparator != nil && WFcmp(n.comparator) && WFcparam(n.leftParam, n) && WFcparam(n.rightParam, n) && n.rightParam.isLiteral
 //@ spec WFlitDef(n *syntaxQueryParamLiteral) bool = n != nil && len(n.literal) == 1 && wf(n.literal) && RO(n.literal)
@@ -469,7 +474,7 @@ package jsonpath
 
 //@ template computeFrame
 //@   requires extVal(root) && wf(currentList) && extStack(currentList) && (arr(currentList) == 0 || mine(currentList) || RO(currentList))
-//@   ensures shape: (len(ret) == 1 || len(ret) == len(currentList)) && wf(ret)
+//@   ensures shape: (len(ret) == 1 || len(ret) == len(currentList)) && wf(ret) && off(ret) == 0
 //@   ensures owner: fresh(ret) || ret == emptyList || ret == fullList
 
 //@ interface syntaxQuery.compute
@@ -477,6 +482,7 @@ package jsonpath
 //@   include computeFrame
 //@   ensures single: paramSingleQ(this) ==> ret != fullList
 //@   ensures one: (isType(this, *syntaxQueryParamLiteral) || isType(this, *syntaxQueryParamRoot)) ==> len(ret) == 1
+//@   ensures sem: forall j {elemAt(ret, j)} {QH(this, root, memberAt(currentList, j))} :: 0 <= j && j < len(currentList) ==> (holdsAt(ret, j) <==> QH(this, root, memberAt(currentList, j)))
 //@   decreases 3*qheight(this) + 2
 
 //@ spec isKind(k int, v any) bool = v != emptyEntity && (k == 0 || (k == 1 && (isType(v, float64) || isType(v, json.Number))) || (k == 2 && isType(v, bool)) || (k == 3 && isType(v, string)) || (k == 4 && v == nil))
@@ -651,19 +657,29 @@ package jsonpath
 //@   props C03 C04 C05 C06 C09 C20
 //@   implements syntaxQuery.compute
 //@   unfold WFquery(this) ==> WFandDef(l)
-//@   loop 1 invariant wf(leftComputedList) && mine(leftComputedList)
+//@   loop 1 invariant lists: wf(leftComputedList) && mine(leftComputedList) && fresh(leftComputedList) && off(leftComputedList) == 0 && off(rightComputedList) == 0 && len(leftComputedList) == len(currentList) && len(rightComputedList) == len(currentList) && len(currentList) != 1 && wf(rightComputedList) && arr(leftComputedList) != arr(rightComputedList)
+//@   loop 1 invariant right: forall j {elemAt(rightComputedList, j)} :: 0 <= j && j < len(currentList) ==> ((elemAt(rightComputedList, j) != emptyEntity) <==> QH(l.rightQuery, root, memberAt(currentList, j)))
+//@   loop 1 invariant done: forall j {elemAt(leftComputedList, j)} {QH(l.leftQuery, root, memberAt(currentList, j))} :: 0 <= j && j <= rangeindex ==> ((elemAt(leftComputedList, j) != emptyEntity) <==> (QH(l.leftQuery, root, memberAt(currentList, j)) && QH(l.rightQuery, root, memberAt(currentList, j))))
+//@   loop 1 invariant todo: forall j {elemAt(leftComputedList, j)} :: rangeindex < j && j < len(currentList) ==> ((elemAt(leftComputedList, j) != emptyEntity) <==> QH(l.leftQuery, root, memberAt(currentList, j)))
+//@   loop 1 invariant none: !hasValue ==> (forall j {elemAt(leftComputedList, j)} :: 0 <= j && j <= rangeindex ==> elemAt(leftComputedList, j) == emptyEntity)
 
 //@ func (*syntaxLogicalOr).compute
 //@   props C03 C04 C05 C06 C09 C20
 //@   implements syntaxQuery.compute
 //@   unfold WFquery(this) ==> WForDef(l)
-//@   loop 1 invariant wf(leftComputedList) && mine(leftComputedList)
+//@   loop 1 invariant lists: wf(leftComputedList) && mine(leftComputedList) && fresh(leftComputedList) && off(leftComputedList) == 0 && off(rightComputedList) == 0 && len(leftComputedList) == len(currentList) && len(rightComputedList) == len(currentList) && len(currentList) != 1 && wf(rightComputedList) && arr(leftComputedList) != arr(rightComputedList)
+//@   loop 1 invariant right: forall j {elemAt(rightComputedList, j)} :: 0 <= j && j < len(currentList) ==> ((elemAt(rightComputedList, j) != emptyEntity) <==> QH(l.rightQuery, root, memberAt(currentList, j)))
+//@   loop 1 invariant done: forall j {elemAt(leftComputedList, j)} {QH(l.leftQuery, root, memberAt(currentList, j))} :: 0 <= j && j <= rangeindex ==> ((elemAt(leftComputedList, j) != emptyEntity) <==> (QH(l.leftQuery, root, memberAt(currentList, j)) || QH(l.rightQuery, root, memberAt(currentList, j))))
+//@   loop 1 invariant todo: forall j {elemAt(leftComputedList, j)} :: rangeindex < j && j < len(currentList) ==> ((elemAt(leftComputedList, j) != emptyEntity) <==> QH(l.leftQuery, root, memberAt(currentList, j)))
 
 //@ func (*syntaxLogicalNot).compute
 //@   props C03 C04 C05 C06 C09 C20
 //@   implements syntaxQuery.compute
 //@   unfold WFquery(this) ==> WFnotDef(l)
-//@   loop 1 invariant wf(computedList) && mine(computedList)
+//@   loop 1 invariant lists: wf(computedList) && mine(computedList) && fresh(computedList) && off(computedList) == 0 && len(computedList) == len(currentList) && len(currentList) != 1
+//@   loop 1 invariant done: forall j {elemAt(computedList, j)} {QH(l.query, root, memberAt(currentList, j))} :: 0 <= j && j <= rangeindex ==> ((elemAt(computedList, j) != emptyEntity) <==> !QH(l.query, root, memberAt(currentList, j)))
+//@   loop 1 invariant todo: forall j {elemAt(computedList, j)} :: rangeindex < j && j < len(currentList) ==> ((elemAt(computedList, j) != emptyEntity) <==> QH(l.query, root, memberAt(currentList, j)))
+//@   loop 1 invariant none: !hasValue ==> (forall j {elemAt(computedList, j)} :: 0 <= j && j <= rangeindex ==> elemAt(computedList, j) == emptyEntity)
 
 //@ func (*syntaxFilterQualifier).retrieve
 //@   props C03 C04 C05 C06 C20
